@@ -5,6 +5,7 @@ import (
 	"fmt"
 	"strings"
 
+	"github.com/iotaledger/iota.go/checksum"
 	"github.com/wollac/iota-crypto-demo/pkg/bech32/address"
 	"github.com/wollac/iota-crypto-demo/pkg/ed25519"
 	"github.com/wollac/iota-crypto-demo/pkg/migration"
@@ -213,6 +214,26 @@ func runC19(c *core.Ctx) {
 		}
 	}
 	bad = append(bad, "", "iota", "iota1", "1", good+"q", good[:len(good)-1], strings.ToUpper(good), " "+good, good+" ")
+	// valid Bech32 strings that carry no address at all: no data symbols, fewer than one byte of data
+	for _, h := range []string{"iota", "atoi", "smr", "rms", "IOTA"} {
+		for _, sym := range [][]byte{nil, {0}, {31}, {0, 0}, {1, 0}} {
+			v := rb.EncodeSymbols(rb.Lower(h), sym)
+			bad = append(bad, v, strings.ToUpper(v))
+		}
+	}
+	// well-formed addresses whose checksum is right for another convention (Bech32m and other final constants)
+	for _, h := range []string{"iota", "atoi", "smr", "rms"} {
+		for ver := 0; ver < 3; ver++ {
+			n := 32
+			if ver == 8 {
+				n = 20
+			}
+			sym, _ := rb.ConvertBits(append([]byte{byte(ver)}, bytes.Repeat([]byte{0xC3}, n)...), 8, 5, true)
+			for _, k := range []uint32{0x2bc830a3, 0, 2, 3, 0x3fffffff, 1 << 29} {
+				bad = append(bad, rb.EncodeSymbolsConst(h, sym, k), strings.ToUpper(rb.EncodeSymbolsConst(h, sym, k)))
+			}
+		}
+	}
 	for _, s := range bad {
 		if c19JudgeParse(c, s, "spelling") {
 			nontriv++
@@ -317,7 +338,9 @@ func runC19(c *core.Ctx) {
 				}
 			}
 		}
-		for _, v := range []string{s + "9", s[:80], "9" + s, s[1:], strings.ToLower(s), "TRANSFEQ" + s[8:], s[:80] + "A", "", s + s} {
+		// the 90-tryte form of the same address (81 trytes + the 9-tryte Kerl checksum wallets append) is not a migration address
+		withSum, _ := checksum.AddChecksum(s, true, 9)
+		for _, v := range []string{s + "9", s[:80], "9" + s, s[1:], strings.ToLower(s), "TRANSFEQ" + s[8:], s[:80] + "A", "", s + s, withSum, s + "999999999", s + s[:9]} {
 			c19JudgeMig(c, v, "shape")
 		}
 	})
